@@ -5658,7 +5658,11 @@ public:
     template<typename T, typename Tag>
     SBEPP_CPP14_CONSTEXPR bool on_data(T d, Tag) noexcept
     {
-        return !validate_and_subtract(sbepp::size_bytes(d));
+        // length prefix and payload are validated separately because their
+        // sum can overflow `std::size_t` for 64-bit length types
+        return !(
+            validate_and_subtract(sizeof(typename T::size_type))
+            && validate_and_subtract(static_cast<std::size_t>(d.size())));
     }
 
     // ignore them all because we validate `blockLength`
